@@ -139,7 +139,7 @@ type hosted struct {
 
 type program struct {
 	hosts    map[string][]byte
-	rootInit []byte
+	rootInit map[*txn][]byte
 }
 
 type compiler struct {
@@ -178,17 +178,23 @@ func (c *compiler) collect(f *frame, self string) {
 	}
 }
 
-func compileTx(ab *addrBook, tx *txn) *program {
-	c := &compiler{ab: ab, blk: tx.blk, bodies: map[string][]hosted{}, seenID: map[string]map[int]bool{}}
-	p := &program{hosts: map[string][]byte{}}
-	if !tx.create {
-		if tx.blk.isHost(tx.target) {
-			c.register(tx.target, tx.rootID, tx.body, tx.target)
+func compileTx(ab *addrBook, tx *txn) *program { return compileTxs(ab, []*txn{tx}) }
+
+// compileTxs builds the dispatcher code of every host for all the given transactions (ids must be
+// unique across them, except inside a reused CREATE2 init code) and the init code of creation transactions.
+func compileTxs(ab *addrBook, txs []*txn) *program {
+	c := &compiler{ab: ab, blk: txs[0].blk, bodies: map[string][]hosted{}, seenID: map[string]map[int]bool{}}
+	p := &program{hosts: map[string][]byte{}, rootInit: map[*txn][]byte{}}
+	for _, tx := range txs {
+		if !tx.create {
+			if tx.blk.isHost(tx.target) {
+				c.register(tx.target, tx.rootID, tx.body, tx.target)
+			}
+			c.collect(tx.body, tx.target)
+		} else {
+			c.collect(tx.body, "dyn")
+			p.rootInit[tx] = c.unit(nil, tx.body, "dyn")
 		}
-		c.collect(tx.body, tx.target)
-	} else {
-		c.collect(tx.body, "dyn")
-		p.rootInit = c.unit(nil, tx.body, "dyn")
 	}
 	names := make([]string, 0, len(c.bodies))
 	for h := range c.bodies {
